@@ -43,3 +43,7 @@ func VerifSameResponse(a, b *dns.Msg, tag string) { verifSameResponse(a, b, tag)
 
 // VerifWellFormed asserts the C13 well-formedness of a reply.
 func VerifWellFormed(q, resp *dns.Msg, tcp bool, tag string) { verifWellFormed(q, resp, tcp, tag) }
+
+// VerifStatsKeyStub replaces typeToStatsKey where the per-type counter name is not the subject:
+// the real function looks the type up in a 70-entry map, which splits every path per type.
+func VerifStatsKeyStub(qtype uint16) string { return "DNS_query.T" }
